@@ -2,17 +2,15 @@
 
 Decided clauses:
   C06.thresh  apply_filters: threshold = ceil(nsamples * min_freq) as usize; filter keeps a row only if count >= min_count
-  C06.pred    per site filter: NoConst inserts a symbol iff !ignore_const_gaps || sym != '-' and keeps iff |set| > 1;
-              NoAmbig rejects iff some symbol is ambiguous; NoAmbigOrConst contribution table over 256 bytes x flag
-              (1 iff A/C/G/T/U in either case, or '-' when gaps count) and keeps iff the sum > 1; NoFilter keeps;
-              the FilterType match is exhaustive
-  C06.order   masking happens after the row loop and maps exactly the ambiguous symbols to 'N'
-  C06.rows    in every function replacing variants / split_kmers / variant_count the pushes are control-equivalent
-              (one frozen exception: filter's k-mer push is additionally guarded by update_kmers)
+  C06.func    MergeSkaArray::filter and update_counts, interpreted (abstract interpretation of their MIR with models of
+              Vec / HashSet / ndarray::Array2) on every row over a symbol alphabet^n (n = 1..3 samples), every filter type,
+              all 16 flag combinations, every threshold 0..n+1 and arbitrary stored counts, equal the plain-table model:
+              recount in the requested mode, drop empty rows, keep iff count >= threshold and the site predicate holds,
+              mask ambiguity codes to N afterwards, k-mers / rows / counts stay aligned, return value = rows removed
   C06.stale   after apply_filters (k-mers not updated) only filter/apply_filters/update_counts/distance/write_fasta/
               names/nsamples are reached on that array before it is dropped
   C06.flags   CLI flag -> parameter provenance (no swapped same-typed flags); C06.fasta = C03.fasta
-Not decided: HashSet semantics of the distinct-symbol sets (library).
+Not decided: tables wider than the bound; HashSet / ndarray semantics are modelled (assumed), not analysed.
 """
 from ..facts import AnchorLost, _strip_generics
 from ..expr import ExprBuilder, show, subexprs
@@ -23,9 +21,10 @@ from .util import reachable_without
 from . import c04
 from .c12 import _region_head
 
-EXPLANATION = ('Expression-tree extraction of the threshold, path-condition truth tables and region-wise abstract interpretation of '
-               'the per-symbol filter logic, control-equivalence of row-aligned pushes, typestate of the k-mers-stale array.')
-ASSUMPTIONS = ['hashbrown::HashSet insert/len semantics', 'ndarray push_row keeps row order']
+EXPLANATION = ('Expression-tree extraction of the threshold; small-scope abstract interpretation of filter / update_counts against the '
+               'plain-table model; typestate of the k-mers-stale array; flag provenance.')
+ASSUMPTIONS = ['models of hashbrown::HashSet (new/insert/len/into_iter), ndarray::Array2 (zeros/push_row/axis_iter/mapv_inplace) and Vec are faithful',
+               'rows wider than 3 samples behave like the narrower ones (the code treats a row as an unordered multiset of symbols)']
 MSA = 'merge_ska_array::MergeSkaArray'
 
 
@@ -60,281 +59,16 @@ def run(facts, chk, tier, only=None):
         else:
             chk.violation('C06.thresh', 'C06.thresh:apply_filters', where=sp, detail='frequency threshold is %s, specified ceil(nsamples * min_freq) as usize' % s)
 
-    # structure of the row loop in filter
-    def structure():
-        pr = [bb for bb, t in filt.calls() if 'push_row' in (t.callee.name or '')]
-        if len(pr) != 1:
-            raise AnchorLost('filter: %d push_row calls' % len(pr))
-        nx = [bb for bb, t in filt.calls() if (t.callee.name or '').endswith('::next') and filt.dominates(bb, pr[0]) and 'Zip' in (t.callee.full or '')]
-        if len(nx) != 1:
-            raise AnchorLost('filter: row loop head not found')
-        head = nx[0]
-        body = next(tg for v, tg in filt.blocks[filt.blocks[head].term.target].term.targets if v == 1)
-        # frequency guard: first switch in the body on count >= min_count
-        g = None
-        for b in sorted(reachable_without(filt, body, avoid_blocks=[head])):
-            t = filt.blocks[b].term
-            if t.k == 'switch':
-                e = ebf.operand(t.discr)
-                if e[0] == 'bin' and 'min_count' in show(e):
-                    g = b
-                    break
-        if g is None:
-            raise AnchorLost('filter: frequency guard not found')
-        # filter-type dispatch
-        d = None
-        for b in sorted(reachable_without(filt, body, avoid_blocks=[head])):
-            t = filt.blocks[b].term
-            if t.k == 'switch' and ebt.operand(t.discr)[0] == 'discr' and filt.dominates(g, b) and len(t.targets) >= 3:
-                d = b
-                break
-        if d is None:
-            raise AnchorLost('filter: FilterType dispatch not found')
-        # keep_var test: the switch that separates push_row from the else-branch
-        kv = [b for b in filt.dominators()[pr[0]] if filt.blocks[b].term.k == 'switch' and filt.dominates(d, b) and b != d]
-        kv = [b for b in kv if all(filt.dominates(b, x) for x in [pr[0]])]
-        keep_sw = max(kv) if kv else None
-        if keep_sw is None:
-            raise AnchorLost('filter: keep_var test not found')
-        return dict(head=head, body=body, guard=g, dispatch=d, keep=keep_sw, push=pr[0])
-    S = chk.guard('C06', 'C06:filter-structure', structure)
-    if S is None:
-        return
+    # ---------------------------------------------------------------- the operation itself (functional, small scope)
+    # filter / update_counts are interpreted on every table of a bounded family and compared with the plain-table
+    # model (predicates, threshold comparison, recount in the requested mode, masking, row alignment of
+    # variants / variant_count / split_kmers, return value).  Replaces the earlier shape rules C06.pred / C06.order /
+    # C06.rows, which raised false alarms on behaviour-preserving rewrites (see DESIGN.md section 12).
+    from . import tableops
+    chk.guard('C06.func', 'C06.func:filter', lambda: tableops.check_filter(facts, chk, 'C06.func', tier))
+    chk.guard('C06.func', 'C06.func:update_counts', lambda: tableops.check_update_counts(facts, chk, 'C06.func', tier))
     ft = facts.adt('cli::FilterType')
     vnames = [v['name'] for v in ft['variants']]
-
-    def guard_rule():
-        t = filt.blocks[S['guard']].term
-        e = ebf.operand(t.discr)
-        # evaluate: pass edge dominates dispatch
-        pass_edge = [s for s in set(t.succs()) if filt.dominates(s, S['dispatch']) or s == S['dispatch']]
-        if len(pass_edge) != 1:
-            raise AnchorLost('frequency guard: pass edge')
-        from ..cond import edge_conds
-        c = next(c for s, c in edge_conds(filt, ebf, S['guard']) if s == pass_edge[0])
-        bad = []
-        for cnt in range(0, 5):
-            for mc in range(0, 5):
-                def leaf(x, cnt=cnt, mc=mc):
-                    s = show(x)
-                    if x[0] == 'arg' and x[2] == 'min_count':
-                        return mc
-                    if s in ('*count', 'count') or (x[0] == 'deref' and 'count' in s):
-                        return cnt
-                    raise Unevaluable()
-                if bool(eval_formula(c, lambda ex: eval_expr(ex, leaf))) != (cnt >= mc):
-                    bad.append((cnt, mc))
-        return bad, show(e), t.span
-    r = chk.guard('C06.thresh', 'C06.thresh:filter:count-guard', guard_rule)
-    if r is not None:
-        bad, s, sp = r
-        if bad:
-            chk.violation('C06.thresh', 'C06.thresh:filter:count-guard', where=sp, evals=25, detail='row passes the frequency filter under %s; differs from count >= min_count at %s' % (s, bad[:3]))
-        else:
-            chk.ok('C06.thresh', 'C06.thresh:filter:count-guard', sp, 'row considered iff count >= min_count (%s)' % s, evals=25)
-
-    # ---------------------------------------------------------------- per-filter predicates
-    def preds():
-        res = []
-        dt = filt.blocks[S['dispatch']].term
-        arms = {}
-        for v, tg in dt.targets:
-            if v < len(vnames):
-                arms[vnames[v]] = tg
-        res.append(('exhaustive', sorted(arms) == sorted(vnames) and not _can_reach(filt, dt.otherwise, S['keep']), 'FilterType arms: %s' % sorted(arms)))
-        keep_local = filt.blocks[S['keep']].term.discr.place.local
-        kv_defs = ebf._defs.get(keep_local, [])
-        kv_src = kv_defs[0][2].rv.ops[0].place.local if kv_defs and kv_defs[0][1] != 'term' and kv_defs[0][2].rv.k == 'use' and kv_defs[0][2].rv.ops[0].place else keep_local
-
-        def defs_in_arm(arm):
-            reach = reachable_without(filt, arms[arm], avoid_blocks=[S['keep'], S['head']])
-            out = []
-            for (bb, idx, node, _p) in ebf._defs.get(kv_src, []):
-                if bb in reach and idx != 'term':
-                    out.append((bb, ebt.rvalue(node.rv)))
-            return out, reach
-        # NoFilter
-        d, _ = defs_in_arm('NoFilter')
-        res.append(('NoFilter', len(d) == 1 and d[0][1] == ('const', 1, 'bool'), 'NoFilter: keep_var = %s' % [show(x[1]) for x in d]))
-        # NoConst
-        d, reach = defs_in_arm('NoConst')
-        ok = len(d) == 1 and d[0][1][0] == 'bin' and d[0][1][1] == 'Gt' and d[0][1][3] == ('const', 1, 'usize') and 'len(' in show(d[0][1][2])
-        ins = [bb for bb, t in filt.calls() if bb in reach and (t.callee.name or '').endswith('HashSet::insert')]
-        nxt = [bb for bb, t in filt.calls() if bb in reach and (t.callee.name or '').endswith('::next')]
-        if len(ins) == 1 and len(nxt) == 1:
-            body = next(tg for v, tg in filt.blocks[filt.blocks[nxt[0]].term.target].term.targets if v == 1)
-            f = reach_formula(filt, ebf, body, _region_head(filt, ins[0]), stop=[nxt[0]], back_edges_ok=True)
-            rows = []
-            for flag in (0, 1):
-                for isgap in (0, 1):
-                    def leaf(x, flag=flag, isgap=isgap):
-                        if x[0] == 'arg' and x[2] == 'ignore_const_gaps':
-                            return flag
-                        if x[0] == 'bin' and x[1] in ('Ne', 'Eq') and x[3] == ('const', 45, 'u8'):
-                            return int(isgap == 0) if x[1] == 'Ne' else isgap
-                        raise Unevaluable()
-                    rows.append(bool(eval_formula(f, lambda ex: eval_expr(ex, leaf))) == ((not flag) or (not isgap)))
-            ok = ok and all(rows)
-        else:
-            ok = False
-        res.append(('NoConst', ok, 'NoConst: insert iff !ignore_const_gaps || sym != gap; keep iff |set| > 1 (%s)' % [show(x[1]) for x in d]))
-        # NoAmbig
-        d, reach = defs_in_arm('NoAmbig')
-        amb = [bb for bb, t in filt.calls() if bb in reach and (t.callee.name or '').endswith('is_ambiguous')]
-        ok = False
-        if len(amb) == 1:
-            sw = filt.blocks[amb[0]].term.target
-            st = filt.blocks[sw].term
-            if st.k == 'switch':
-                tedge = st.otherwise
-                # the `keep` flag local (source of keep_var in this arm)
-                srcs = [x[1] for x in d]
-                flag_locals = [x[1] for x in srcs if x[0] == 'var']
-                ebl = ExprBuilder(filt, through_vars=False)
-                srcl = [ebl.rvalue(node.rv) for (bb, idx, node, _p) in ebf._defs.get(kv_src, []) if bb in reach and idx != 'term']
-                fl = [x[1] for x in srcl if x[0] == 'var']
-                if len(fl) == 1:
-                    sets0 = [bb for (bb, idx, node, _p) in ebf._defs.get(fl[0], []) if idx != 'term' and node.rv.k == 'use' and node.rv.ops[0].const_int() == 0]
-                    sets1 = [bb for (bb, idx, node, _p) in ebf._defs.get(fl[0], []) if idx != 'term' and node.rv.k == 'use' and node.rv.ops[0].const_int() == 1]
-                    fedge = next(tg for v, tg in st.targets if v == 0)
-                    ok = len(sets0) == 1 and len(sets1) == 1 and sets0[0] in reachable_without(filt, tedge, avoid_blocks=[sw]) and \
-                        sets0[0] not in reachable_without(filt, fedge, avoid_blocks=[sw, sets1[0]]) and filt.dominates(sets1[0], amb[0])
-        res.append(('NoAmbig', ok, 'NoAmbig: keep starts true and becomes false exactly when is_ambiguous(sym)'))
-        # NoAmbigOrConst: contribution table by region interpretation
-        d, reach = defs_in_arm('NoAmbigOrConst')
-        okc = len(d) == 1 and d[0][1][0] == 'bin' and d[0][1][1] == 'Gt' and d[0][1][3][0] == 'const' and d[0][1][3][1] == 1
-        nxt = [bb for bb, t in filt.calls() if bb in reach and (t.callee.name or '').endswith('::next') and 'hash_set' in (t.callee.full or '')]
-        tab_ok = False
-        ncell = 0
-        if okc and len(nxt) == 1:
-            cnt_local = d[0][1][2][1] if d[0][1][2][0] == 'var' else None
-            cexpr = ExprBuilder(filt, through_vars=False).rvalue([node for (bb, idx, node, _p) in ebf._defs.get(kv_src, []) if bb in reach and idx != 'term'][0].rv)
-            cnt_local = cexpr[2][1] if cexpr[0] == 'bin' and cexpr[2][0] == 'var' else None
-            sw = filt.blocks[nxt[0]].term.target
-            body = next(tg for v, tg in filt.blocks[sw].term.targets if v == 1)
-            opt_local = filt.blocks[nxt[0]].term.dest.local
-            flag_arg = [i for i in range(1, filt.arg_count + 1) if filt.local_names.get(i) == 'ignore_const_gaps'][0]
-            bad = []
-            if cnt_local is not None:
-                for flag in (0, 1):
-                    for x in range(256):
-                        I = Interp(facts, {'IntT': 'u64'})
-                        fr = I.new_frame(filt)
-                        fr[opt_local].v = some(BV(8, x))
-                        fr[flag_arg].v = BV(1, flag)
-                        fr[cnt_local].v = BV(32, 0, signed=True)
-                        r = I.exec_body(filt, [], start=body, stop=[nxt[0]], frame=fr)
-                        got = fr[cnt_local].v.val
-                        ch = chr(x | 0x20)
-                        want = 1 if ch in 'acgtu' else (1 if (ch == '-' and not flag) else 0)
-                        ncell += 1
-                        if got != want:
-                            bad.append((x, flag, got, want))
-                tab_ok = not bad
-        res.append(('NoAmbigOrConst', okc and tab_ok, 'NoAmbigOrConst: contribution 1 iff A/C/G/T/U (either case) or gap when gaps count (%d cells); keep iff sum > 1' % ncell))
-        return res
-    r = chk.guard('C06.pred', 'C06.pred:filter', preds)
-    if r is not None:
-        for nm, ok, why in r:
-            if ok:
-                chk.ok('C06.pred', 'C06.pred:filter:%s' % nm, MSA + '::filter', why, evals=512 if nm == 'NoAmbigOrConst' else 4)
-            else:
-                chk.violation('C06.pred', 'C06.pred:filter:%s' % nm, where=MSA + '::filter', detail='violated: ' + why)
-
-    # the counts compared with the threshold are recounted in the requested mode first (shared with C10.recount)
-    from . import c10
-    chk.guard('C06.order', 'C06.order:recount:run', lambda: c10.check_recount(facts, chk, 'C06.order:recount'))
-
-    # ---------------------------------------------------------------- masking
-    def mask():
-        mv = [(bb, t) for bb, t in filt.calls() if 'mapv_inplace' in (t.callee.name or '')]
-        if len(mv) != 1:
-            raise AnchorLost('filter: %d mapv_inplace calls' % len(mv))
-        after = S['head'] not in reachable_without(filt, mv[0][0])
-        eb = ExprBuilder(filt)
-        ce = eb.operand(mv[0][1].args[1])
-        cl = [x[1][8:] for x in subexprs(ce) if x[0] == 'agg' and x[1].startswith('closure:')]
-        if len(cl) != 1:
-            raise AnchorLost('mask closure not found')
-        c = facts.bodies[cl[0]]
-        I = Interp(facts)
-        bad = []
-        for x in range(256):
-            cnt = Cell(BV(32, 0, signed=True), 'masked')
-            env = Agg('closure:' + c.path, 0, [RefV(cnt)])
-            envv = RefV(Cell(env, 'env')) if c.local_ty(1).startswith('&') else env
-            r = I.exec_body(c, [envv, BV(8, x)])
-            amb = I.call_fn('ska_dict::bit_encoding::is_ambiguous', [BV(8, x)]).val
-            want = ord('N') if amb else x
-            if r.val != want:
-                bad.append((x, r.val, want))
-        # guarded by mask_ambig
-        g = [b for b in filt.dominators()[mv[0][0]] if filt.blocks[b].term.k == 'switch' and ebf.operand(filt.blocks[b].term.discr) == ('arg', 4, 'mask_ambig')
-             or (filt.blocks[b].term.k == 'switch' and show(ebf.operand(filt.blocks[b].term.discr)) == 'mask_ambig')]
-        return after, bad, bool(g), mv[0][1].span
-    r = chk.guard('C06.order', 'C06.order:filter:mask', mask)
-    if r is not None:
-        after, bad, g, sp = r
-        if after and not bad and g:
-            chk.ok('C06.order', 'C06.order:filter:mask', sp, "masking after the row loop, under mask_ambig, maps is_ambiguous(v) -> 'N' and fixes the rest (256 cells)", evals=256)
-        else:
-            chk.violation('C06.order', 'C06.order:filter:mask', where=sp, evals=256,
-                          detail='mask after loop=%s, guarded by mask_ambig=%s, cells differing from (is_ambiguous -> N): %s' % (after, g, bad[:3]))
-
-    # ---------------------------------------------------------------- row-aligned triple
-    def rows():
-        res = []
-        for fn, exc in ((MSA + '::update_counts', None), (MSA + '::filter', 'update_kmers'), (MSA + '::weed', None), (MSA + '::new', None)):
-            b = facts.fn(fn)
-            eb = ExprBuilder(b, through_vars=False)
-            pr = [bb for bb, t in b.calls() if 'push_row' in (t.callee.name or '')]
-            pushes = [(bb, t) for bb, t in b.calls() if (t.callee.name or '').endswith('Vec::push')]
-            cnt_p = [bb for bb, t in pushes if 'Vec::<usize>' in (t.callee.full or '')]
-            kmer_p = [bb for bb, t in pushes if 'Vec::<IntT>' in (t.callee.full or '')]
-            if len(pr) != 1 or len(cnt_p) != 1 or len(kmer_p) != 1:
-                res.append((fn, False, '%d push_row / %d count pushes / %d k-mer pushes' % (len(pr), len(cnt_p), len(kmer_p))))
-                continue
-            # control equivalence: same set of controlling switch edges. compare by mutual (post)dominance within the loop body
-            def ctrl(bb):
-                # switches that dominate bb and on which bb depends: one successor cannot reach bb without passing the switch again
-                out = set()
-                for d in b.dominators()[bb]:
-                    t = b.blocks[d].term
-                    if t.k == 'switch':
-                        for s in set(t.succs()):
-                            if bb not in reachable_without(b, s, avoid_blocks=[d]):
-                                out.add((d, s))
-                return out
-            cr, cc, ck = ctrl(pr[0]), ctrl(cnt_p[0]), ctrl(kmer_p[0])
-            ok = cr == cc
-            extra = ck - cr
-            if exc is None:
-                ok = ok and ck == cr
-                why = 'row / count / k-mer pushes are control-equivalent'
-            else:
-                # exactly one extra controlling edge: the false edge of a switch on the named flag
-                names = set()
-                for d, s in extra:
-                    names.add(show(eb.operand(b.blocks[d].term.discr)))
-                ok = ok and cr <= ck and names == {exc}
-                why = 'row / count pushes control-equivalent; k-mer push additionally under `%s` only (%s)' % (exc, sorted(names))
-            # all three fields assigned before return
-            fi = [facts.field_index(MSA, x) for x in ('split_kmers', 'variants', 'variant_count')]
-            if fn.endswith('::new'):
-                asg = True
-            else:
-                from .util import field_writes
-                asg = all(field_writes(b, 1, i) for i in fi)
-            res.append((fn, ok and asg, why + ('' if asg else '; not all three fields are assigned')))
-        return res
-    r = chk.guard('C06.rows', 'C06.rows:scan', rows)
-    if r is not None:
-        chk.floor('C06.rows', 'functions rebuilding the table', len(r), 4)
-        for fn, ok, why in r:
-            if ok:
-                chk.ok('C06.rows', 'C06.rows:%s' % fn, fn, why)
-            else:
-                chk.violation('C06.rows', 'C06.rows:%s' % fn, where=fn, detail='rows of variants / variant_count / split_kmers can get out of step: ' + why)
 
     # ---------------------------------------------------------------- stale typestate
     def stale():
